@@ -39,7 +39,7 @@ CHECKS = {
     "C10": ("exhaustive/boundary value sweeps through the real encoder/decoder vs. bit-level reference encoder; Miri (Stacked Borrows; thorough also Tree Borrows + symbolic alignment) + ASan/overflow-check runs",
             "exploration", "4/C10",
             "Round trip, exact consumption and byte-for-byte wire format on exhaustive small domains and boundary neighbourhoods, plus sanitizer runs of the same workload."),
-    "C11": ("exhaustive short byte strings + mutations + lying size prefixes under catch_unwind with per-decode RSS/CPU monitor; strict reference decoder, incl. user-defined (zero-sized / oversized) var-int targets; Miri (thorough: both aliasing models) + ASan with overflow checks; thorough: the same differential oracle inside a libFuzzer target",
+    "C11": ("exhaustive short byte strings + mutations + lying size prefixes under catch_unwind with per-decode RSS/CPU monitor; strict reference decoder, incl. user-defined (zero-sized / oversized) var-int targets; Miri (thorough: both aliasing models) + ASan with overflow checks; the real binary fed malformed generator replies (every truncation, undecodable and lying replies); thorough: the same differential oracle inside a libFuzzer target",
             "exploration", "4/C11",
             "Every decodable type is fed every byte string up to length 2 (thorough: 3), mutated valid encodings and lying prefixes; results are compared with a strict reference decoder and cost is measured per decode."),
     "C12": ("bounded-exhaustive operation histories in lock-step with a reference append-only log; canary-padded buffers; Miri (thorough: both aliasing models) + ASan with overflow checks",
